@@ -92,10 +92,12 @@ void pdgstrf_SetupSpace(void *work, int_t lwork)
         whichspace = SYSTEM; /* malloc/free */
     } else if ( lwork > 0 ) {
         whichspace = USER;   /* user provided space */
-        stack.size = lwork;
+        /* Only whole 8-byte words of work[] are used: both ends of the
+           stack then stay aligned for the integer arrays carved from them. */
+        stack.size = lwork - lwork % 8;
         stack.used = 0;
         stack.top1 = 0;
-        stack.top2 = lwork;
+        stack.top2 = stack.size;
         stack.array = (void *) work;
         nworkers = 0;
     }
@@ -389,8 +391,8 @@ pdgstrf_MemInit(int_t n, int_t annz, superlumt_options_t *superlumt_options,
 	    whichspace = SYSTEM;
 	} else {
 	    whichspace = USER;
-	    stack.size = lwork;
-	    stack.top2 = lwork;
+	    stack.size = lwork - lwork % 8;
+	    stack.top2 = stack.size;
 	    nworkers = 0;
 	}
 	
